@@ -1929,7 +1929,7 @@ fn gen_all(ctx: &mut Ctx<C17>) {
                 emit(ctx, &t, "reflected-text", text, *tg, entry, o);
             }
         }
-        ctx.subspace("reflecting documents (each with rotating wrap / entry / radius / snippet combos)", docs.len() as u64, true);
+        ctx.subspace("reflecting documents (every document, each with a sample of the wrap / entry / radius / snippet combinations)", docs.len() as u64, false);
     }
 
     // --- 2. exhaustive small cube around the error column --------------------------------------------
